@@ -1,4 +1,5 @@
 """C09 - naming conversion renames consistently and keeps Python names recoverable."""
+from harness.zoo import N_FUN_SHAPES
 from vlib.plan import CH, K
 
 FUNCTIONS = [
@@ -50,8 +51,8 @@ def plan(tier):
         sp = [f"0:{r}" for r in range(3)]
         ap = [f"0:{m},1:{r}" for m in range(2) for r in range(3)]
     else:
-        sp = [f"0:{r},1:{f}" for r in range(3) for f in range(13)]
-        ap = [f"0:{m},1:{r},2:{f}" for m in range(2) for r in range(3) for f in range(13)]
+        sp = [f"0:{r},1:{f}" for r in range(3) for f in range(N_FUN_SHAPES + 1)]
+        ap = [f"0:{m},1:{r},2:{f}" for m in range(2) for r in range(3) for f in range(N_FUN_SHAPES + 1)]
     return [
         K("k_off", "kjobs.c09", "conversion_off", "conversion off is the identity"),
         K("k_on", "kjobs.c09", "conversion_on", "algebra of the conversion", timeout=3000),
